@@ -531,7 +531,14 @@ def finite_expand(e, uni, _cache=None):
         _cache = {}
     key = e.get_id()
     if key in _cache:
-        return _cache[key]
+        return _cache[key][1]
+    r = _finite_expand(e, uni, _cache)
+    _cache[key] = (e, r)  # keep e alive: z3 reuses ids of collected terms
+    return r
+
+
+def _finite_expand(e, uni, _cache):
+    key = None
     if z3.is_quantifier(e):
         n = e.num_vars()
         sorts = [e.var_sort(i) for i in range(n)]
@@ -551,7 +558,6 @@ def finite_expand(e, uni, _cache=None):
             r = z3.And(*insts) if e.is_forall() else z3.Or(*insts)
         else:
             r = e
-        _cache[key] = r
         return r
     if z3.is_app(e) and e.num_args() > 0:
         kids = [finite_expand(ch, uni, _cache) for ch in e.children()]
@@ -559,9 +565,7 @@ def finite_expand(e, uni, _cache=None):
             r = e.decl()(*kids)
         else:
             r = e
-        _cache[key] = r
         return r
-    _cache[key] = e
     return e
 
 
@@ -626,6 +630,7 @@ class PathCtx:
         self.ghost = {}  # ghost state for contracts
         self.effects = []  # ghost effect trace
         self._hinted = set()
+        self._alive = []  # terms whose ids are used as cache keys must stay alive (z3 reuses ids)
         self.labels = []
 
     # -- fresh symbols -----------------------------------------------------
@@ -747,6 +752,7 @@ class PathCtx:
                 key0 = ("divmod", a.get_id(), b.get_id())
                 if key0 not in self._hinted:
                     self._hinted.add(key0)
+                    self._alive.append((a, b))
                     self.assume_def(z3.Implies(b > 0, z3.And(a == b * (a / b) + a % b, a % b >= 0, a % b < b)))
             if not z3.is_app(a) or a.decl().kind() != z3.Z3_OP_MUL:
                 return
@@ -772,6 +778,7 @@ class PathCtx:
             if key in self._hinted:
                 return
             self._hinted.add(key)
+            self._alive.append((a, b))
             k = z3.IntVal(1)
             for x in rest:
                 k = k * x
@@ -859,7 +866,7 @@ class PathCtx:
             # quantified hypotheses over uninterpreted sorts: look for a counter-model in a small finite universe
             # (a finite interpretation of an uninterpreted sort is a legitimate model, so `sat` here is a genuine
             # counterexample to the verification condition)
-            for k in (3, 4) if getattr(self, "finite_sorts", None) else ():
+            def finite_try(k):
                 uni = {srt: [z3.Const(f"{srt.name()}_u{j}", srt) for j in range(k)] for srt in self.finite_sorts}
                 s3 = z3.Solver()
                 s3.set("timeout", 20000)
@@ -867,10 +874,18 @@ class PathCtx:
                     for a_ in self.solver.assertions():
                         s3.add(finite_expand(a_, uni))
                     s3.add(finite_expand(z3.Not(term), uni))
-                    r2 = s3.check()
+                    return s3.check(), s3
                 except z3.Z3Exception:
-                    r2 = z3.unknown
+                    return z3.unknown, None
+
+            for k in (3, 4) if getattr(self, "finite_sorts", None) else ():
+                r2, s3 = finite_try(k)
                 if r2 == z3.sat:
+                    # redundancy: the constants of the universe may coincide, so a k-element model is also a model of
+                    # the (k+1)-expansion; a refutation is reported only if an independent expansion agrees
+                    r3, _s = finite_try(k + 1)
+                    if r3 != z3.sat:
+                        continue
                     m2 = s3.model()
                     md = self.model_dict(m2)
                     md["_finite_universe"] = k
